@@ -270,7 +270,11 @@ func cmdCheck(args []string) int {
 		if c.Trusted {
 			continue
 		}
-		fn := eng.fnByKey[c.Key]
+		baseKey := c.Key
+		if i := strings.Index(baseKey, "#"); i > 0 {
+			baseKey = baseKey[:i] // "Func#view": a second contract of the same function, verified on its own
+		}
+		fn := eng.fnByKey[baseKey]
 		if fn == nil || fn.Blocks == nil {
 			unbound = append(unbound, c.Key)
 			continue
@@ -287,7 +291,7 @@ func cmdCheck(args []string) int {
 		if fn.Signature.Recv() != nil {
 			rt := fn.Signature.Recv().Type()
 			for _, ic := range db.Contracts {
-				if ic.Extern || !strings.HasSuffix(ic.Key, "."+fn.Name()) || ic == c {
+				if ic.Extern || !strings.HasSuffix(ic.Key, "."+fn.Name()) || ic == c || strings.Contains(c.Key, "#") {
 					continue
 				}
 				it := eng.namedType(strings.TrimSuffix(ic.Key, "."+fn.Name()))
